@@ -1069,3 +1069,346 @@ Proof.
   apply (sim_steps pr P T Hpar Hex Hwf Hasm n (Run 0 ss) (Run 0 st)).
   cbn [cfg_rel]. split; [unfold pcmap; destruct P; reflexivity|exact He].
 Qed.
+
+(* ====================================================================== *)
+(* 10. the structural theorems                                            *)
+(* ====================================================================== *)
+
+(* registers inside array entries and slices are named registers *)
+Lemma named_deep P k mn args ops :
+  nth_error P k = Some (AIns mn args ops) ->
+  (forall a b i, In (AEntry a (VReg b i)) ops -> In (b, i) (named P)) /\
+  (forall a b i v, In (ASlice a (VReg b i) v) ops \/ In (ASlice a v (VReg b i)) ops -> In (b, i) (named P)) /\
+  (forall b i, In (AV (VReg b i)) ops -> In (b, i) (named P)).
+Proof.
+  intros Hk.
+  assert (H : forall o r, In o ops -> In r (regs_of_opnd o) -> In r (named P)).
+  { intros o r Ho Hr. eapply regs_in_named; [exact Hk|]. unfold all_ops. rewrite flat_map_app.
+    apply in_or_app. right. apply in_flat_map. exists o. auto. }
+  split; [|split].
+  - intros a b i Hin. eapply H; [exact Hin|]. left. reflexivity.
+  - intros a b i v [Hin|Hin]; (eapply H; [exact Hin|]); cbn [regs_of_opnd regs_of_val].
+    + left. reflexivity.
+    + apply in_or_app. right. left. reflexivity.
+  - intros b i Hin. eapply H; [exact Hin|]. left. reflexivity.
+Qed.
+
+(* every inserted instruction is a `set` of an R register that the source
+   program names nowhere (top level, array index, slice bound), and the scratch
+   registers of one command are pairwise distinct *)
+Theorem scratch_fresh pr P T :
+  assemble_ir pr P = AOk T ->
+  forall k c, nth_error P k = Some c -> is_ins c = true ->
+  exists ps : list (reg * Z),
+    List.length ps = nsets pr (named P) c /\
+    NoDup (map fst ps) /\
+    (forall i p, nth_error ps i = Some p ->
+       nth_error T (pcmap pr P k + i) = Some (set_cmd (fst p) (snd p)) /\
+       fst (fst p) = ap_bankR pr /\ ~ In (fst p) (named P)).
+Proof.
+  intros Hasm k c Hk Hc.
+  destruct (assemble_struct _ _ _ Hasm) as [tbl [Htbl [HT HF]]].
+  destruct c as [l|mn args ops]; [discriminate|].
+  assert (Hok : cmd_ok pr (named P) (AIns mn args ops)).
+  { rewrite Forall_forall in HF. apply HF. eapply nth_error_In. exact Hk. }
+  cbn [cmd_ok] in Hok.
+  destruct (repl_ops pr (named P) mn 0 (all_ops args ops) []) as [[[s ops'] tmp]|] eqn:Hr; [|congruence].
+  destruct (repl_ops_spec _ _ _ _ _ _ _ _ _ Hr (good_tmp_nil pr (named P))) as [ps [-> [Htmp [[Hnd Hsc] Hrel]]]].
+  cbn [app] in Htmp. subst tmp. exists ps. split; [|split].
+  - cbn [nsets]. rewrite Hr, map_length. reflexivity.
+  - exact Hnd.
+  - intros i p Hi.
+    assert (Hlt : (i < List.length ps)%nat) by (apply nth_error_Some; congruence).
+    split.
+    + unfold pcmap. rewrite HT, (nth_block _ _ _ _ HF _ _ _ Hk).
+      * cbn [blk]. rewrite Hr, nth_error_app1 by (rewrite map_length; exact Hlt).
+        rewrite nth_error_map, Hi. reflexivity.
+      * cbn [blk]. rewrite Hr, app_length, map_length. lia.
+    + rewrite Forall_forall in Hsc.
+      assert (Hs : scratch pr (named P) (fst p)).
+      { apply Hsc. apply in_map. eapply nth_error_In. exact Hi. }
+      destruct Hs as [H1 [_ H3]]. auto.
+Qed.
+
+Lemma ops_rel_nth ex mn ps ops : forall j0 ops' j o,
+  ops_rel ex mn ps j0 ops ops' -> nth_error ops j = Some o ->
+  exists o', nth_error ops' j = Some o' /\ op_rel ex mn ps (j0 + j) o o'.
+Proof.
+  induction ops as [|o0 ops IH]; intros j0 [|o0' ops'] j o Hrel Hj; cbn [ops_rel] in Hrel; try contradiction.
+  - destruct j; discriminate.
+  - destruct Hrel as [H1 H2]. destruct j as [|j]; cbn [nth_error] in *.
+    + injection Hj as <-. exists o0'. rewrite Nat.add_0_r. auto.
+    + destruct (IH _ _ _ _ H2 Hj) as [o' [E1 E2]]. exists o'. split; [exact E1|].
+      replace (j0 + S j)%nat with (S j0 + j)%nat by lia. exact E2.
+Qed.
+
+(* every label operand becomes the index, in the assembled program, of the
+   position of its label; that index is the first line of the block of the
+   first instruction after the label, or the length of the program when no
+   instruction follows (consecutive labels share it) *)
+Theorem labels_resolve pr P T :
+  assemble_ir pr P = AOk T ->
+  forall k mn args ops j l p,
+  nth_error P k = Some (AIns mn args ops) ->
+  nth_error (all_ops args ops) j = Some (ALabel l) ->
+  label_pos P l = Some p ->
+  (exists ops'', nth_error T (last_line pr P k) = Some (AIns mn [] ops'')
+                 /\ nth_error ops'' j = Some (AV (VLit (Z.of_nat (pcmap pr P p)))))
+  /\ match fetch P p with
+     | Some (k', _, _) => (p <= k')%nat /\ pcmap pr P p = pcmap pr P k' /\ (pcmap pr P p < List.length T)%nat
+     | None => pcmap pr P p = List.length T
+     end.
+Proof.
+  intros Hasm k mn args ops j l p Hk Hj Hp.
+  destruct (assemble_struct _ _ _ Hasm) as [tbl [Htbl [HT HF]]].
+  pose proof (table_is_pcmap _ _ _ Htbl HF) as Hfind.
+  assert (HTlen : List.length T = pcmap_from pr (named P) P (List.length P))
+    by (rewrite HT; apply length_blocks; exact HF).
+  split.
+  - assert (Hok : cmd_ok pr (named P) (AIns mn args ops)).
+    { rewrite Forall_forall in HF. apply HF. eapply nth_error_In. exact Hk. }
+    cbn [cmd_ok] in Hok.
+    destruct (repl_ops pr (named P) mn 0 (all_ops args ops) []) as [[[s ops'] tmp]|] eqn:Hr; [|congruence].
+    destruct (repl_ops_spec _ _ _ _ _ _ _ _ _ Hr (good_tmp_nil pr (named P))) as [ps [-> [_ [_ Hrel]]]].
+    exists (map (resolve_opnd tbl) ops'). split.
+    + unfold last_line, pcmap. rewrite Hk. cbn [nsets]. rewrite Hr, HT, (nth_block _ _ _ _ HF _ _ _ Hk).
+      * cbn [blk]. rewrite Hr, nth_error_app2 by lia. rewrite Nat.sub_diag. reflexivity.
+      * cbn [blk]. rewrite Hr, app_length. cbn [List.length]. lia.
+    + destruct (ops_rel_nth _ _ _ _ _ _ _ _ Hrel Hj) as [o' [E1 E2]]. cbn [op_rel] in E2. subst o'.
+      rewrite nth_error_map, E1. cbn [option_map resolve_opnd]. rewrite Hfind, Hp. reflexivity.
+  - pose proof (fetch_pcmap pr (named P) P p) as Hf. unfold pcmap.
+    destruct (fetch P p) as [[[k' mn'] ops0]|].
+    + destruct Hf as [[args' [ops1 [Hk' _]]] Hpc]. split; [|split].
+      * (* k' >= p: the map is monotone and the block of k' is not empty *)
+        destruct (Nat.le_gt_cases p k') as [Hle|Hgt]; [exact Hle|exfalso].
+        assert (Hmono : forall P0 a b, (a <= b)%nat -> (pcmap_from pr (named P) P0 a <= pcmap_from pr (named P) P0 b)%nat).
+        { induction P0 as [|c0 P0 IHP]; intros a b Hab; [destruct a, b; cbn [pcmap_from]; lia|].
+          destruct a as [|a]; [cbn [pcmap_from]; lia|]. destruct b as [|b]; [lia|].
+          cbn [pcmap_from]. specialize (IHP a b ltac:(lia)). lia. }
+        pose proof (pcmap_from_S pr (named P) P _ _ Hk') as HS. cbn [bsize] in HS.
+        pose proof (Hmono P (S k') p ltac:(lia)). lia.
+      * symmetry. exact Hpc.
+      * rewrite HTlen, <- Hpc.
+        assert (Hmono : forall P0 a b, (a <= b)%nat -> (pcmap_from pr (named P) P0 a <= pcmap_from pr (named P) P0 b)%nat).
+        { induction P0 as [|c0 P0 IHP]; intros a b Hab; [destruct a, b; cbn [pcmap_from]; lia|].
+          destruct a as [|a]; [cbn [pcmap_from]; lia|]. destruct b as [|b]; [lia|].
+          cbn [pcmap_from]. specialize (IHP a b ltac:(lia)). lia. }
+        pose proof (pcmap_from_S pr (named P) P _ _ Hk') as HS. cbn [bsize] in HS.
+        assert (Hlt : (k' < List.length P)%nat) by (apply nth_error_Some; congruence).
+        pose proof (Hmono P (S k') (List.length P) ltac:(lia)). lia.
+    + rewrite HTlen. exact Hf.
+Qed.
+
+(* one block per source instruction, in source order: nothing dropped, duplicated
+   or reordered; the block ends with the source instruction under the same
+   mnemonic, its operands being the source operands up to literal -> scratch
+   register (held by one of the block's sets) and label -> line number *)
+Definition block_of (pr : aparams) (nm : list reg) (tbl : list (string * nat)) (c : acmd)
+           (b : list (reg * Z) * acmd) : Prop :=
+  exists mn args ops ops',
+    c = AIns mn args ops /\ snd b = AIns mn [] (map (resolve_opnd tbl) ops')
+    /\ ops_rel (ap_exempt pr) mn (fst b) 0 (all_ops args ops) ops'
+    /\ Forall (scratch pr nm) (map fst (fst b)).
+
+Theorem no_drop_dup_reorder pr P T :
+  assemble_ir pr P = AOk T ->
+  exists tbl bs,
+    (forall l, tbl_find tbl l = option_map (pcmap pr P) (label_pos P l)) /\
+    T = flat_map (fun b => map setc (fst b) ++ [snd b]) bs /\
+    Forall2 (block_of pr (named P) tbl) (filter is_ins P) bs.
+Proof.
+  intros Hasm.
+  destruct (assemble_struct _ _ _ Hasm) as [tbl [Htbl [HT HF]]].
+  exists tbl.
+  assert (H : forall P0, Forall (cmd_ok pr (named P)) P0 ->
+            exists bs, flat_map (blk pr (named P) tbl) P0 = flat_map (fun b => map setc (fst b) ++ [snd b]) bs
+                       /\ Forall2 (block_of pr (named P) tbl) (filter is_ins P0) bs).
+  { induction P0 as [|c P0 IH]; intros HF0.
+    - exists []. split; [reflexivity|constructor].
+    - inversion HF0 as [|? ? Hc HP0]; subst. destruct (IH HP0) as [bs [E1 E2]].
+      destruct c as [l|mn args ops].
+      + exists bs. split; [exact E1|exact E2].
+      + cbn [cmd_ok] in Hc.
+        destruct (repl_ops pr (named P) mn 0 (all_ops args ops) []) as [[[s ops'] tmp]|] eqn:Hr; [|congruence].
+        destruct (repl_ops_spec _ _ _ _ _ _ _ _ _ Hr (good_tmp_nil pr (named P))) as [ps [-> [Htmp [[_ Hsc] Hrel]]]].
+        cbn [app] in Htmp. subst tmp.
+        exists ((ps, AIns mn [] (map (resolve_opnd tbl) ops')) :: bs). split.
+        * cbn [flat_map blk fst snd]. rewrite Hr, E1. reflexivity.
+        * cbn [filter is_ins]. constructor; [|exact E2].
+          exists mn, args, ops, ops'. cbn [fst snd]. auto. }
+  destruct (H P HF) as [bs [E1 E2]]. exists bs. split; [|split].
+  - apply table_is_pcmap; assumption.
+  - rewrite HT. exact E1.
+  - exact E2.
+Qed.
+
+(* ====================================================================== *)
+(* 11. when no scratch register exists the assembler refuses              *)
+(* ====================================================================== *)
+
+Lemma repl_val_count pr nm v tmp s v' tmp' :
+  repl_val pr nm v tmp = Some (s, v', tmp') -> List.length tmp' = (List.length tmp + lits_of_val v)%nat.
+Proof.
+  destruct v as [z|b i]; cbn [repl_val lits_of_val].
+  - destruct (pick pr nm tmp); [|discriminate]. intros [= <- <- <-]. rewrite app_length. reflexivity.
+  - intros [= <- <- <-]. lia.
+Qed.
+
+Lemma repl_opnd_count pr nm mn j o tmp s o' tmp' :
+  repl_opnd pr nm mn j o tmp = Some (s, o', tmp') ->
+  List.length tmp' = (List.length tmp + need_opnd (ap_exempt pr) mn j o)%nat.
+Proof.
+  destruct o as [[z|b i]|l|a|a v|a v1 v2]; cbn [repl_opnd need_opnd].
+  - destruct (is_exempt (ap_exempt pr) mn j).
+    + intros [= <- <- <-]. lia.
+    + destruct (repl_val pr nm (VLit z) tmp) as [[[s1 w] t1]|] eqn:Hr; [|discriminate].
+      intros [= <- <- <-]. apply repl_val_count in Hr. exact Hr.
+  - intros [= <- <- <-]. lia.
+  - intros [= <- <- <-]. lia.
+  - intros [= <- <- <-]. lia.
+  - destruct (repl_val pr nm v tmp) as [[[s1 w] t1]|] eqn:Hr; [|discriminate].
+    intros [= <- <- <-]. apply repl_val_count in Hr. exact Hr.
+  - destruct (repl_val pr nm v1 tmp) as [[[s1 w1] t1]|] eqn:Hr1; [|discriminate].
+    destruct (repl_val pr nm v2 t1) as [[[s2 w2] t2]|] eqn:Hr2; [|discriminate].
+    intros [= <- <- <-]. apply repl_val_count in Hr1, Hr2. lia.
+Qed.
+
+Lemma repl_ops_count pr nm mn ops : forall j tmp s ops' tmp',
+  repl_ops pr nm mn j ops tmp = Some (s, ops', tmp') ->
+  List.length tmp' = (List.length tmp + need_ops (ap_exempt pr) mn j ops)%nat.
+Proof.
+  induction ops as [|o ops IH]; intros j tmp s ops' tmp'; cbn [repl_ops need_ops].
+  - intros [= <- <- <-]. lia.
+  - destruct (repl_opnd pr nm mn j o tmp) as [[[s1 o1] t1]|] eqn:Ho; [|discriminate].
+    destruct (repl_ops pr nm mn (S j) ops t1) as [[[s2 r2] t2]|] eqn:Hr; [|discriminate].
+    intros [= <- <- <-]. apply repl_opnd_count in Ho. apply IH in Hr. lia.
+Qed.
+
+(* distinct scratch registers are distinct free candidates *)
+Lemma good_tmp_bound pr nm tmp : good_tmp pr nm tmp -> (List.length tmp <= List.length (free_regs pr nm))%nat.
+Proof.
+  intros [Hnd Hsc]. apply Nat.le_trans with (List.length (map snd tmp)); [rewrite map_length; apply le_n|].
+  apply NoDup_incl_length.
+  - (* all registers share the bank, so the indices are distinct *)
+    clear - Hnd Hsc. induction tmp as [|r tmp IH]; [constructor|].
+    inversion Hnd as [|? ? Hr Hnd']; subst. inversion Hsc as [|? ? Hs Hsc']; subst.
+    cbn [map]. constructor; [|apply IH; assumption].
+    intros Hin. apply in_map_iff in Hin as [r' [E Hin']]. apply Hr.
+    rewrite Forall_forall in Hsc'. destruct (Hsc' _ Hin') as [F' _]. destruct Hs as [F _].
+    destruct r as [a b], r' as [a' b']. cbn [fst snd] in *. subst. exact Hin'.
+  - intros i Hin. apply in_map_iff in Hin as [r [<- Hin]].
+    rewrite Forall_forall in Hsc. destruct (Hsc _ Hin) as [F [C N]].
+    unfold free_regs. apply filter_In. split; [exact C|].
+    apply negb_true_iff. apply mem_reg_notIn. rewrite <- F. destruct r; exact N.
+Qed.
+
+(* a command that needs more scratch registers than there are unnamed R registers
+   makes the assembler fail with "no registers left" — it never reuses or
+   clobbers a register instead *)
+Theorem assemble_rejects pr P c :
+  In c P -> (List.length (free_regs pr (named P)) < need_cmd (ap_exempt pr) c)%nat ->
+  assemble_ir pr P = AErr ENoScratch.
+Proof.
+  intros Hin Hneed. unfold assemble_ir, replace_constants, abind. rewrite named_make_args.
+  destruct (repl_all pr (named P) (map make_args P)) as [Q|] eqn:HQ; [exfalso|reflexivity].
+  destruct (repl_all_struct _ _ _ _ HQ) as [_ HF]. rewrite Forall_forall in HF. specialize (HF c Hin).
+  destruct c as [l|mn args ops]; [cbn [need_cmd] in Hneed; lia|]. cbn [cmd_ok need_cmd] in *.
+  destruct (repl_ops pr (named P) mn 0 (all_ops args ops) []) as [[[s ops'] tmp]|] eqn:Hr; [|congruence].
+  pose proof (repl_ops_count _ _ _ _ _ _ _ _ _ Hr) as Hc. cbn [List.length] in Hc.
+  destruct (repl_ops_spec _ _ _ _ _ _ _ _ _ Hr (good_tmp_nil pr (named P))) as [ps [_ [_ [G _]]]].
+  apply good_tmp_bound in G. lia.
+Qed.
+
+(* ====================================================================== *)
+(* 12. the instruction objects (flavour lookup, from_operands)            *)
+(* ====================================================================== *)
+
+Lemma conv_embed k o x : conv k o = Some x -> embed_op x = o.
+Proof.
+  destruct k, o as [[z|b i]|l|a|a [z|b i]|a [z1|b1 i1] [z2|b2 i2]]; cbn [conv]; intros [= <-]; reflexivity.
+Qed.
+
+Lemma conv_all_embed ks : forall ops xs, conv_all ks ops = Some xs -> map embed_op xs = ops.
+Proof.
+  induction ks as [|k ks IH]; intros [|o ops] xs; cbn [conv_all]; try discriminate.
+  - intros [= <-]. reflexivity.
+  - destruct (conv k o) as [x|] eqn:Hx; [|discriminate].
+    destruct (conv_all ks ops) as [r|] eqn:Hr; [|discriminate].
+    intros [= <-]. cbn [map]. rewrite (conv_embed _ _ _ Hx), (IH _ _ Hr). reflexivity.
+Qed.
+
+Lemma lookup_mn_name t : forall mn r, lookup_mn t mn = Some r -> r_mn r = mn.
+Proof.
+  induction t as [|r0 t IH]; intros mn r; cbn [lookup_mn]; [discriminate|].
+  destruct (lookup_mn t mn) as [r'|] eqn:Hl.
+  - intros [= <-]. apply IH. exact Hl.
+  - destruct (String.eqb_spec (r_mn r0) mn) as [E|_]; [intros [= <-]; exact E|discriminate].
+Qed.
+
+(* the instruction objects handed to the executor are exactly the commands the
+   IR-level passes produced, provided those carry no bracket args any more *)
+Lemma build_embed t : forall T B,
+  build t T = Some B -> Forall (fun c => match c with AIns _ args _ => args = [] | ALab _ => True end) T ->
+  map embed B = T.
+Proof.
+  induction T as [|c T IH]; intros B; cbn [build].
+  - intros [= <-] _. reflexivity.
+  - destruct (build_cmd t c) as [x|] eqn:Hx; [|discriminate].
+    destruct (build t T) as [xs|] eqn:Hxs; [|discriminate].
+    intros [= <-] HF. inversion HF as [|? ? Hc HT]; subst. cbn [map]. rewrite (IH _ eq_refl HT). f_equal.
+    destruct c as [l|mn args ops]; cbn [build_cmd] in Hx; [discriminate|]. subst args.
+    destruct (lookup_mn t mn) as [r|] eqn:Hl; [|discriminate].
+    destruct (conv_all (r_kinds r) ops) as [ys|] eqn:Hy; [|discriminate].
+    injection Hx as <-. unfold embed. cbn [fst snd].
+    rewrite (lookup_mn_name _ _ _ Hl), (conv_all_embed _ _ _ Hy). reflexivity.
+Qed.
+
+Lemma blocks_noargs pr nm tbl P :
+  Forall (fun c => match c with AIns _ args _ => args = [] | ALab _ => True end) (flat_map (blk pr nm tbl) P).
+Proof.
+  induction P as [|c P IH]; [constructor|]. cbn [flat_map]. apply Forall_app. split; [|exact IH].
+  destruct c as [l|mn args ops]; [constructor|]. cbn [blk].
+  destruct (repl_ops pr nm mn 0 (all_ops args ops) []) as [[[s ops'] t]|] eqn:Hr; [|constructor].
+  destruct (repl_ops_spec _ _ _ _ _ _ _ _ _ Hr (good_tmp_nil pr nm)) as [ps [-> _]].
+  apply Forall_app. split.
+  - rewrite Forall_forall. intros x Hx. apply in_map_iff in Hx as [p [<- _]]. reflexivity.
+  - constructor; [reflexivity|constructor].
+Qed.
+
+(* C03 for the instruction objects of a flavour: what the executor runs is the
+   simulated program *)
+Theorem assemble_simulates_flavour pr t P B :
+  params_ok pr = true -> is_exempt (ap_exempt pr) SET 1 = true ->
+  wf_src P = true -> assemble pr t P = AOk B ->
+  forall n ss st, eqv pr (named P) ss st ->
+  exists m, (n <= m)%nat /\ cfg_rel pr P (arun P n (Run 0 ss)) (arun (map embed B) m (Run 0 st)).
+Proof.
+  intros Hpar Hex Hwf Hasm. unfold assemble, abind in Hasm.
+  destruct (assemble_ir pr P) as [T|e] eqn:HT; [|discriminate].
+  destruct (build t T) as [B'|] eqn:HB; [|discriminate]. injection Hasm as ->.
+  destruct (assemble_struct _ _ _ HT) as [tbl [_ [HT' _]]].
+  rewrite (build_embed _ _ _ HB) by (rewrite HT'; apply blocks_noargs).
+  exact (assemble_simulates pr P T Hpar Hex Hwf HT).
+Qed.
+
+(* consequence for terminating runs: a source run that halts / faults is matched
+   for every sufficiently large fuel *)
+Lemma arun_stable P n m c : (forall pc s, arun P n c <> Run pc s) -> (n <= m)%nat -> arun P m c = arun P n c.
+Proof.
+  intros H Hle. replace m with (n + (m - n))%nat by lia. rewrite arun_add. apply arun_terminal. exact H.
+Qed.
+
+Corollary assemble_preserves_result pr P T :
+  params_ok pr = true -> is_exempt (ap_exempt pr) SET 1 = true ->
+  wf_src P = true -> assemble_ir pr P = AOk T ->
+  forall n ss st, eqv pr (named P) ss st ->
+  (forall pc s, arun P n (Run 0 ss) <> Run pc s) ->
+  exists m0, forall m, (m0 <= m)%nat -> cfg_rel pr P (arun P n (Run 0 ss)) (arun T m (Run 0 st)).
+Proof.
+  intros Hpar Hex Hwf Hasm n ss st He Hterm.
+  destruct (assemble_simulates pr P T Hpar Hex Hwf Hasm n ss st He) as [m0 [_ Hrel]].
+  exists m0. intros m Hm. rewrite (arun_stable T m0 m); [exact Hrel| |exact Hm].
+  intros pc s E. rewrite E in Hrel.
+  destruct (arun P n (Run 0 ss)) as [pc0 s0|s0|k s0|k s0]; cbn [cfg_rel] in Hrel; try contradiction.
+  eapply Hterm. reflexivity.
+Qed.
